@@ -54,6 +54,9 @@ def gen(seed, tier):
             crashes.append(c1 + P.loguniform_int(r, 1, 80))
         f["crash_at_consult"] = crashes
     pl["objective_form"] = r.choice(["closure", "lambda", "callable"])
+    for l in pl["levels"]:
+        if l["engine"] == "cma" and l.get("sigma0") is None and seed % 2 == 0:
+            l["sigma0_omitted"] = True  # CMALevelConfig(...) without the sigma0 argument
     if seed % 7 == 0:
         P.nan_stratum(pl, seed)
     if r.random() < 0.5 and 1 not in f["snapshot_at_boundary"]:
@@ -308,7 +311,28 @@ def run(plan):
 
     mod = sys.modules[__name__]
     if not plan.get("c19_enumerate"):
-        return runner.default_run(mod, plan)
+        w = build.execute(plan, MONITORS, wall_s=WALL_S)
+        try:
+            if w.outcome == "exception" and w.restarts > 0 and not plan.get("nan_stratum"):
+                # "The loaded tree can be run further": an exception of a structural kind in the continued run
+                # is judged when the same plan without crash-restart faults runs through cleanly
+                exc = w.sut_exception or ""
+                last = exc.strip().splitlines()[-1] if exc.strip() else ""
+                if last.split(":")[0].strip() in ("TypeError", "AttributeError", "KeyError", "NameError", "IndexError",
+                                                   "UnboundLocalError", "_pickle.PicklingError", "RecursionError"):
+                    p2 = copy.deepcopy(plan)
+                    p2["faults"] = {k: v for k, v in plan["faults"].items() if k not in ("crash_at_consult",)}
+                    w2 = build.execute(p2, (), wall_s=WALL_S)
+                    clean = w2.outcome != "exception"
+                    w2.dispose()
+                    w.probe("c19-continued-run-exception-judged")
+                    if clean:
+                        w.violate(PROP, "continued-run-raised/" + last.split(":")[0].strip(),
+                                  {"error": last[:300], "restarts": w.restarts,
+                                   "engines": [l["engine"] for l in plan["levels"]]})
+            return runner.summarize_world(w, mod, plan)
+        finally:
+            w.dispose()
     dry = build.execute(plan, ())
     bcons = [i + 1 for i, c in enumerate(dry.consults) if c[1] == "boundary"]
     n_cons = len(dry.consults)
